@@ -119,10 +119,12 @@ pub fn check_ast(sh: &mut Shard, ops: &HashMap<u8, OpInfo>, family: &str, text: 
             }
         };
         let h = t.sp.saturating_sub(t.bp);
-        if h >= g.contexts[ctx].num_locals + bcmc::HEIGHT_CAP {
-            continue;
-        }
         if !g.states.contains(&(ctx, t.ip, h)) {
+            if !g.growing.is_empty() {
+                // a stack-growing cycle (C11's finding): heights beyond the explored ones exist by construction
+                sh.count("concrete-states-above-a-growing-cycle");
+                continue;
+            }
             sh.violation(
                 "conformance",
                 json!({"family": family, "program": text, "bytecode": dis_text}),
@@ -161,6 +163,20 @@ fn text_case(sh: &mut Shard, ops: &HashMap<u8, OpInfo>, family: &str, text: &str
 fn run(sh: &mut Shard) {
     let tier = sh.cfg.tier;
     let ops = bcmc::optable();
+    // size ladders: operands across the 8- and 16-bit boundaries
+    crate::ladders::each(tier, None, &mut |l| {
+        if sh.mine() {
+            let (fam, m) = (l.family, l.m);
+            sh.begin(&|| format!("ladder {fam} m={m}"));
+            sh.count("family:ladders");
+            let text = printer::program(&l.prog);
+            let c = check_ast(sh, &ops, "ladder", &text, &l.prog);
+            if c.compiled {
+                sh.nontrivial(&format!("{fam}:{m}"));
+            }
+        }
+        sh.running()
+    });
     // (a) the slices
     for sl in slices::slices() {
         let name = sl.name;
